@@ -117,8 +117,7 @@ def run_shard(shard, ctx):
                     continue
                 if method == "product" and R2 != Rs[0]:
                     continue  # product() has no factor operand
-                if method == "mul" and R2 > 2 and tier == "quick":
-                    continue  # '*' is multiply with update_full=False; thinned
+                # '*' is NOT assumed to be multiply(update_full=False): the operator overload is code of its own, all layouts run
                 for uf in ((False, True) if method in ("multiply", "hadamard") else (None,)):
                     for ws in warms:
                         for vi in vis:
